@@ -304,6 +304,11 @@ def xl_cases(name):
         yield x, T[name]["cfgs"][3], None, big          # whole-series range
         yield x, T[name]["cfgs"][1], [0, 1, 700, 1023, 1024, 1499], big   # windowed range (exact)
         yield x, T[name]["cfgs"][0], [0, 1, 700, 1023, 1024, 1499], ()    # windowed std: small offsets only
+        # quarter-grid records whose window ranges land exactly on the thresholds (1.0, 0.5), lengths that are not powers of two
+        for ln in (13, 37, 150, 1501):
+            xq = list(alpha.xl((0.0, 0.25, 0.5, 1.0, 1.25, 3.0, 0.75), ln, 3))
+            yield xq, dict(suspect_threshold=1.0, fail_threshold=0.5, test_period=180, check_type="range"), [0, 1, ln // 2, ln - 2], (404.0, -1024.25, 0.125)
+            yield xq, dict(suspect_threshold=0.75, fail_threshold=0.25, test_period=120, check_type="range", min_obs=2), [0, ln // 3], (404.0, -7.75)
     elif name in ("spike_test", "rate_of_change_test", "density_inversion_test", "gross_range_test", "valid_range_test"):
         if name in ("spike_test", "rate_of_change_test"):
             # counts stored as uint16 near 40000 (sums of neighbours exceed the type) and as int8 near 100
@@ -335,6 +340,11 @@ def run_task(task, acc):
     if ci < 0:
         series = [[], alpha.debruijn(tuple(spec["al"]), 3) * 3]
         cfgs = spec["cfgs"]
+        if name == "attenuated_signal_test":
+            # every length-5 record on a half / quarter grid with thresholds exactly on attainable window ranges
+            qcfg = dict(suspect_threshold=1.0, fail_threshold=0.5, test_period=180, check_type="range")
+            for xq in itertools.product((0.0, 0.25, 0.5, 1.0), repeat=5):
+                _run_one(acc, name, qcfg, logical(name, list(xq)))
         for item in xl_cases(name):
             x, cfg, perturb_at, voff_extra = item[:4]
             lg = logical(name, list(x))
